@@ -263,7 +263,25 @@ class World:
     def _on_write(self, codec: DeviceCodec, data: bytes) -> None:
         self.write_calls_step += 1
         for t, payload in codec.on_client_bytes(data):
-            self.step_writes.append(msg_name(t) or f"id{t}")
+            name = msg_name(t) or f"id{t}"
+            if name == "GetTimeResponse":
+                # the answer to the device's time request carries the current time in seconds since the epoch
+                import time
+
+                from aioesphomeapi import api_pb2
+
+                r = api_pb2.GetTimeResponse()
+                r.ParseFromString(payload)
+                if abs(int(r.epoch_seconds) - int(time.time())) > 120:
+                    name += ":wrong_time"
+            elif name == "ConnectRequest":
+                from aioesphomeapi import api_pb2
+
+                r = api_pb2.ConnectRequest()
+                r.ParseFromString(payload)
+                if r.password != (self.params.password or ""):
+                    name += ":wrong_password"
+            self.step_writes.append(name)
             self.step_frames.append((t, payload))
 
     # ------------------------------------------------------- current objects
